@@ -13,13 +13,13 @@ def plan(ctx):
         for e in esets(n, 0, m):
             surv = [i for i in range(n) if i not in e]
             for d in range(n):
-                for ct in ((1, 2) if (thorough or len(e) == m) else (1,)):
+                for ct in ((1, 2) if ((thorough or len(e) == m) and be == RS) else (1,)):   # checksum writing is back-end independent glue: CRC32 variants on RS only (ISA-L + real CRCs: 10 GB)
                     obs.append(l2_ob(be, k, m, hd, surv[::-1], ln=unit + 1, mode=2, dest=d, ct=ct, tag="rec"))
         emax = tuple(range(m))
         surv = [i for i in range(n) if i not in emax]
         for ln in (1, unit, 2 * unit + 1):
-            obs.append(l2_ob(be, k, m, hd, surv, ln=ln, mode=2, dest=0, ct=2, tag="reclen"))
-        obs.append(l2_ob(be, k, m, hd, surv, ln=unit + 1, mode=2, dest=0, ct=2, unalign=(1 << len(surv)) - 1, tag="recunal"))
+            obs.append(l2_ob(be, k, m, hd, surv, ln=ln, mode=2, dest=0, ct=(2 if be == RS else 1), tag="reclen"))
+        obs.append(l2_ob(be, k, m, hd, surv, ln=unit + 1, mode=2, dest=0, ct=(2 if be == RS else 1), unalign=(1 << len(surv)) - 1, tag="recunal"))
         # destination outside 0..k+m-1 must be refused
         for d in (-1, n, n + 1, INT_MAX, -INT_MAX - 1):
             obs.append(l2_ob(be, k, m, hd, surv, ln=unit + 1, mode=2, dest=d, expect=-1, tag="recoob"))
